@@ -19,7 +19,7 @@ TOK = re.compile(r"""
   | (?P<id>[A-Za-z_][A-Za-z0-9_]*!?)
   | (?P<str>"(?:[^"\\]|\\.)*")
   | (?P<life>'[a-z_]+)
-  | (?P<op>::|->|=>|==|!=|<=|>=|&&|\|\||\.\.=|\.\.|[-+*/%<>=!&|.,;:(){}\[\]#?@^])
+  | (?P<op>::|->|=>|==|!=|<=|>=|\+=|-=|\*=|&&|\|\||\.\.=|\.\.|[-+*/%<>=!&|.,;:(){}\[\]#?@^])
 """, re.X | re.S)
 
 
@@ -239,6 +239,11 @@ class P:
                 self.next()
                 rhs = self.expr(nostruct)
                 lhs = ("assign", lhs, rhs)
+                continue
+            if k == "op" and v in ("+=", "-=", "*=") and minp == 0:
+                self.next()
+                rhs = self.expr(nostruct)
+                lhs = ("assign", lhs, ("bin", v[0], lhs, ("paren", rhs)))
                 continue
             break
         return lhs
